@@ -291,3 +291,35 @@ func VH_C20_TwoResends() {
 	vAssert(m.resendBooster.originalTimeout == base, "base timeout changed by Sent events")
 	vAssert(m.resendBooster.boostCount <= bc0+1, "two retransmissions less than one base timeout apart boosted the resend timeout by more than one step")
 }
+
+// VH_C20_Burst: several packets handed to the transport back to back - the
+// clock may read the same for all of them (a coarse clock, or simply a fast
+// sender) - and acknowledged one after the other. Every one of them is a
+// packet that was not retransmitted, so every acknowledgement is a round-trip
+// sample: with an update frequency of 1 the timeout after the last
+// acknowledgement is the multiplier times that packet's own round trip (not
+// below the floor), with the boost gone.
+func VH_C20_Burst() {
+	mult := [3]int{1, 2, 5}[vIntRange("mult_idx", 0, 2)]
+	m := NewTimeOutManager(nil, WithResendMultiplier(mult), WithTimeoutUpdateFrequency(1))
+	vAdv("t_boot")
+	s1, s2 := vU8("seq1"), vU8("seq2")
+	vAssume(s1 != s2)
+	m.Sent(&PacketData{Seq: s1}, false)
+	gap := vI64("gap")
+	vAssume(gap >= 0 && gap <= vMaxDur)
+	vAdvance(time.Duration(gap))
+	m.Sent(&PacketData{Seq: s2}, false)
+	r1, r2 := vI64("rtt1"), vI64("rtt2")
+	vAssume(r1 >= 0 && r1 <= vMaxDur && r2 >= 0 && r2 <= vMaxDur)
+	vAdvance(time.Duration(r1))
+	m.Received(&PacketACK{Seq: s1})
+	vAdvance(time.Duration(r2))
+	m.Received(&PacketACK{Seq: s2})
+	vReach("burst")
+	want := time.Duration(mult) * time.Duration(r1+r2)
+	if want < minimumResendTimeout {
+		want = minimumResendTimeout
+	}
+	vAssert(m.GetResendTimeout() == want, "the acknowledgement of a packet sent in a burst (possibly at the same clock reading as its predecessor) did not produce its round-trip sample")
+}
